@@ -182,7 +182,9 @@ def execute(scenario):
         if lp.xAxisFirstVal != x0:
             res.violation('first-x', f'log pass {fi}: first X {lp.xAxisFirstVal!r}, written {x0!r}', indirect=fm['dfsr']['indirect'])
         xs = [LL.x_of_frame(fm, k) for k in range(n)]
-        even = n > 1 and all(abs((xs[k + 1] - xs[k]) - (xs[1] - xs[0])) <= 1e-9 * max(1.0, abs(xs[1] - xs[0])) for k in range(n - 1))
+        # 'evenly spaced' is judged relative to the spacing itself (an absolute 1e-9 let X values through whose record heads are
+        # only even up to the precision of representation code 68 when the spacing is small: thorough run 5, see DESIGN 9.5)
+        even = n > 1 and all(abs((xs[k + 1] - xs[k]) - (xs[1] - xs[0])) <= 1e-9 * abs(xs[1] - xs[0]) for k in range(n - 1))
         regular = len(fm['per_record']) > 1 and len(set(fm['per_record'][:-1])) <= 1
         if even and len(fm['per_record']) > 1:
             res.probe('last_x_checked')
